@@ -21,6 +21,7 @@ CLAIMED = {
     'C13': ('model_checking', '§6 C13', 'Every document visit_seq can be handed within the bound (node list with repeated keys, edge list with undeclared endpoints, either list absent or replaced by an element the format reports as an error) is executed through the real visit_seq MIR: no panic, Err whenever an edge names an undeclared key, Ok graphs satisfy the C01/C02 invariants and contain only nodes and edges of the document. Byte-level parsing is outside.'),
     'C19': ('model_checking', '§6 C19', 'Executor Rc/Arc count model with drop events on all four flavours: for every graph of the bound, optional container membership, optional kept search result (path, node, cycle, node vector, edge vector) and a family of drop orders, the release counter of every node value is compared after every drop with the set of handles still held: never released while held (directly, through the container or through a kept result), kept results stay usable, and released exactly once when the last handle is gone (cycles and self-loops included). Native replays observe releases through a drop-counting payload.'),
     'C16': ('model_checking', '§6 C16', 'Engine C: struct definitions and unsafe impl headers of Node, WeakNode, Adjacent, Edge, Graph, Path are parsed from the current source; Send(T) / Sync(T) are encoded as Boolean functions of the six leaf facts {K,N,E} x {Send,Sync} under std auto-trait axioms with coinduction (post-fixpoint existence); z3 decides each obligation (sync types: trait only if all six and trait if all six; plain types: never) over all 64 assignments at once - a complete decision of the encoded rules. A probe crate compiled against /repo reports rustc\'s actual verdict for every type x assignment (768 rows); any disagreement with the encoder makes the run inconclusive, every counterexample must be confirmed by it.'),
+    'C14': ('model_checking', '§6 C14', 'A generated probe crate holds one function per (macro in digraph!/sync_digraph!/ungraph!/sync_ungraph!, each of the 4 signature forms, row/edge-list shape) whose macro arguments are opaque sym_key(i) / sym_val(j) calls; the MIR of the expansions is dumped from rustc and executed with gdsl\'s MIR, so all keys and values are symbolic: row keys assumed distinct, edge targets unconstrained (forward references, self-loops, repeated edges and unlisted keys are chosen by the solver). Oracle: listed nodes with listed values, listed edges in listed order (directed: exact out-lists; undirected: incident multiset and own-row order); otherwise a panic whose rendered message contains an unlisted key. *_node!/*_connect! helpers and the empty invocation have their own probes. Random concrete invocations are compiled and run natively on every run (translator validation) and for every counterexample.'),
 }
 NOTE = 'Trusted base: engine A std models (validated differentially against the native build on every run), rustc MIR dump = compiled code, z3. Bounds in evidence.coverage.bounds.'
 TECH = 'bounded symbolic execution of rustc MIR (own executor) + z3; native replay of counterexamples'
